@@ -3,6 +3,8 @@ import SciVerif.Props.C09
 import SciVerif.Tie.Pins
 /-! Tie A obligations for C09 on the current source. -/
 namespace SciVerif.Tie
+-- functions the model relies on without an obligation of its own naming them (pinned by bin/mkpins):
+-- PIN-ALSO: Scipipe.Task_TempDir
 open SciVerif.TaskFS SciVerif.Generated
 
 theorem generated_cmd_fail_fatal : taskSem.cmdFailFatal = true := by decide
@@ -61,6 +63,7 @@ theorem generated_all_ops_known_c09 : taskSemKnown = true := by decide
 
 
 
+
 -- BEGIN PINS (written by bin/mkpins; do not edit by hand)
 /-- the Go functions this property's model and obligations were written against have exactly the
 pinned skeletons (SHA-256 prefix of the atom list) -/
@@ -88,6 +91,7 @@ theorem pinned_skeletons_c09 :
      ("Scipipe.Task_Execute", "40fd1fec0c69deb2"),
      ("Scipipe.Task_Fail", "7efd50bffbc769dd"),
      ("Scipipe.Task_Failf", "9750abd3cdce8d29"),
+     ("Scipipe.Task_TempDir", "6d565a2ddd3d0eb2"),
      ("Scipipe.Task_anyOutputsExist", "0609a842b7aaf7a8"),
      ("Scipipe.Task_ensureAllOutputsExist", "02a49c3c493368f3"),
      ("Scipipe.Task_executeCommand", "98e77d849c0638cb"),
